@@ -294,6 +294,8 @@ func main() {
 			die("%v", err)
 		}
 	}
+	// the translated functions go next to the tables
+	translateFuncs(filepath.Join(filepath.Dir(os.Args[2]), "Funcs.v"))
 }
 
 type section struct {
